@@ -248,6 +248,10 @@ func suiteResp(r *rng, n int) {
 			w := p.do(method, "r.test", uri, h, nil)
 			calls := p.calls() - before
 			emitRespObs(path, i, ae, w, body, data, calls)
+			if path == "fetch" {
+				// two seconds pass: the hits that follow are two seconds old, whether served from memory or restored
+				setClock(getClock() + 2)
+			}
 			if path == "fetch" && enc == "" {
 				// the variants pike compressed itself when it stored the response: made with the best-compression
 				// profile, whatever profile the server uses per request
